@@ -630,11 +630,14 @@ func (self *Node) removeMetadata() {
 }
 
 func (self *Node) getFork(index string) *Fork {
+	l := len(self.call.GetFqid()) + 5
 	i, err := strconv.Atoi(index)
 	if err == nil && i >= 0 && i < len(self.forks) {
-		return self.forks[i]
+		// The forks are not always stored in the order of their ids.
+		if f := self.forks[i]; len(f.fqname) > l && f.fqname[l:] == index {
+			return f
+		}
 	}
-	l := len(self.call.GetFqid()) + 5
 	for _, f := range self.forks {
 		if len(f.fqname) > l && f.fqname[l:] == index {
 			return f
